@@ -16,6 +16,8 @@ import DiskfsModel.Proofs.FatGeomGen
 import DiskfsModel.Proofs.FatFlatFs
 import DiskfsModel.Proofs.FatTreeStep
 import DiskfsModel.Proofs.FatTreeFit
+import DiskfsModel.Proofs.FatTreeImgCheck
+import DiskfsModel.Proofs.FatTreeImgStep
 import DiskfsModel.Generated.Fat
 import DiskfsModel.Proofs.FatBoot
 import DiskfsModel.Spec.FatBoot
@@ -399,5 +401,42 @@ example : GeomOk ⟨.f12, 3072, 2849, 512⟩ :=
   ⟨by intro c hc; have : c < 2849 := by simpa using hc
       simp only [Kind.isEOC]; simp; omega, by decide⟩
 example : Inv .f12 (min 10 10) exTable [[2], [3, 4]] := ex_inv
+
+/-! ### the parsed entries of the volume's bytes -/
+
+/-- **tree_parsed_entries_sound**: "every directory entry's chain made of in-range clusters ending
+    in an end-of-chain mark and long enough for the recorded size", over the PARSED entries: in the
+    bytes of the volume (`image`: every directory's chain holds the serialisation of its child
+    list) a reader that parses the root directory, skips volume label, "." and "..", and descends
+    into every subdirectory through the FAT (`reopenCheck`, to any depth) finds for EVERY entry a
+    chain that `getClusterList` walks to its end, whose clusters lie in [2, lim) with consecutive
+    links and an end-of-chain mark (`chainOkB`), and that has at least the clusters the entry's
+    size field needs. For every state that meets the invariants, hence (`tree_inv_history`,
+    `tree_dirs_fit_history`) after every history. -/
+theorem tree_parsed_entries_sound (eqn) (X : ImgParams) (g : TGeom) (fuel depth : Nat) (s : DirSt)
+    (hX : ImgParamsOk X g) (hg : TGeomOk g) (hfuel : g.f.lim - 2 ≤ fuel)
+    (h : TInv eqn g s) (hfit : TFit g s) (hok : kidsImgOk X g s.kids) :
+    reopenCheck g fuel depth s.m (image X g s) (s.chain.headD 0) = true :=
+  reopenCheck_image hX hg hfuel h hfit hok
+
+theorem tree_parsed_entries_sound_history (eqn) (X : ImgParams) (g : TGeom) (fuel depth : Nat) (ops : List TOp) (s : DirSt)
+    (he : EqnOk eqn) (hX : ImgParamsOk X g) (hg : TGeomOk g) (hfuel : g.f.lim - 2 ≤ fuel) (hb64 : 64 ≤ g.f.io.bpc)
+    (h : TInv eqn g s) (hfit : TFit g s) (hok : kidsImgOk X g s.kids) (hops : ∀ op ∈ ops, OpOk X g op) :
+    reopenCheck g fuel depth (trun eqn g fuel s ops).m (image X g (trun eqn g fuel s ops))
+      ((trun eqn g fuel s ops).chain.headD 0) = true :=
+  reopenCheck_image hX hg hfuel (trun_inv he hg hfuel ops s h) (trun_fit he hg hfuel hb64 ops s h hfit)
+    (trun_imgok ops s hops hok)
+
+/-- non-vacuity: the volume `exTree2` with its label, subdirectory and file -/
+example : reopenCheck exTGeom2 8 3 exTree2.m (image exX exTGeom2 exTree2) (exTree2.chain.headD 0) = true :=
+  tree_parsed_entries_sound exEqn exX exTGeom2 8 3 exTree2 exX_ok exTGeom2_ok (by decide) exTree2_inv exTree2_fit
+    exTree2_imgok
+/-- the check is not vacuous: an entry whose size needs more clusters than its chain has fails it -/
+example : entryChainOkB exTGeom2 8 exTree2.m
+    { short := [65], ext := [], long := [], attr := 0, lcase := 0, cTime := 0, cDate := 0, aDate := 0, mTime := 0,
+      mDate := 0, cluster := 2, size := 65 } = false := by decide
+example : entryChainOkB exTGeom2 8 exTree2.m
+    { short := [65], ext := [], long := [], attr := 0, lcase := 0, cTime := 0, cDate := 0, aDate := 0, mTime := 0,
+      mDate := 0, cluster := 2, size := 64 } = true := by decide
 
 end Diskfs.Fat.C08
